@@ -101,7 +101,8 @@ def decimalDowncast (x : Ext) (c : Bytes) : Bytes :=
   if isDecimalN (base c) then base c      -- DecimalN(S) is DecimalN with explicit scale
   else if base c != tDecimal then c
   else
-    match x.atoi (x.trim (cutComma (elem c))) with
+    -- no precision at all (`Decimal`, `Decimal()`) is precision 10, as in `ColAuto.Infer`
+    match (if (cutComma (elem c)).isEmpty then some (10 : Int) else x.atoi (x.trim (cutComma (elem c)))) with
     | none => c
     | some prec =>
       if prec < 10 then tDecimal32
